@@ -436,7 +436,8 @@ OneTimeCred(S, c, e) ==
   ELSE <<>>
 
 FaultViolations(S, S2, c, e, r, r0) ==
-  V("C18.noPanic", r.class # "panic")
+  \* (lock / confirm middleware used bare document that they panic when the user cannot be loaded)
+  V("C18.noPanic", r.class = "panic" => e.act = "Probe" /\ e.k = "bare")
   \cup V("C18.noFakeSuccess",
          \* (an injected "not found" legitimately sends a handler down its not-found branch)
          e.faultE = "io" /\ SuccessLike(r) /\ r.class = r0.resp.class /\ r.loc = r0.resp.loc
@@ -456,7 +457,7 @@ FaultViolations(S, S2, c, e, r, r0) ==
 
 \* general clauses that must hold whether or not a backend call fails
 FaultTolerantClauses == {"C01.sessionOnlyByCredential", "C01.otherBrowserUntouched", "C02.primaryOnlyParks",
-                         "C03.noLoginWhileBlocked", "C13.changeAuthorised", "C19.noAutoLoginUnderConfirm",
+                         "C03.noLoginWhileBlocked", "C03.middlewareBlocks", "C13.changeAuthorised", "C19.noAutoLoginUnderConfirm",
                          "C19.neverOverwrites", "C19.invalidCreatesNothing"}
 
 -----------------------------------------------------------------------------
